@@ -61,6 +61,8 @@ def gen_sortmx(ctx):
 
 
 def pred_sortmx(case, impl):
+    if impl.startswith('SKIP'):
+        return None
     return 'chk_sortmx ' + case.split(' ', 1)[1] + ' | ' + impl
 
 
@@ -105,6 +107,8 @@ def gen_filter(ctx):
 
 
 def pred_filter(case, impl):
+    if impl.startswith('SKIP'):
+        return None
     return 'chk_filter ' + case.split(' ', 1)[1] + ' | ' + impl
 
 
@@ -122,7 +126,7 @@ def rand_list(rng, marks=False, names=True):
 
 def gen_tryconn(ctx):
     rng, cases = ctx.rng, []
-    for _ in range(4000 if ctx.quick() else 40000):
+    for _ in range(8000 if ctx.quick() else 80000):
         marks = rng.random() < 0.3
         ents = rand_list(rng, marks)
         total = sum(e.split(':')[1].count('+') + 1 for e in ents)
@@ -179,7 +183,7 @@ def session_tokens(rng, head_named, nconn):
 
 def gen_connmx(ctx):
     rng, cases = ctx.rng, []
-    for _ in range(4000 if ctx.quick() else 40000):
+    for _ in range(10000 if ctx.quick() else 100000):
         ents = rand_list(rng)
         total = sum(e.split(':')[1].count('+') + 1 for e in ents)
         cs = [rng.choice('kkc' if rng.random() < 0.6 else 'kcccc') for _ in range(rng.randrange(0, total + 2))]
@@ -345,7 +349,8 @@ def route_case(ctx, op='route', remhost=None, extra='', quality=None, nodir=0.25
 
 def gen_route(ctx):
     cases = []
-    for _ in range(6000 if ctx.quick() else 60000):
+    cases += gen_route_exhaustive(ctx)
+    for _ in range(12000 if ctx.quick() else 120000):
         cases.append(route_case(ctx)); ctx.count('route')
     # order of the lines of one settings file: every permutation of a clean file, same answer expected
     base = [b'relay=mail.example.net', b'port=26', b'outgoingip=10.9.8.7', b'outgoingip6=2001:db8::99', b'clientcert=/etc/cert.pem']
@@ -361,7 +366,44 @@ def gen_route(ctx):
     return cases
 
 
+def gen_route_exhaustive(ctx):
+    """small scope: (a) every control/smtproutes over a 7 letter alphabet up to length 4 (quick: + sample of 5,
+    thorough: up to 6) for the target "a.a"; (b) every sequence of up to 4 distinct lines of a settings file"""
+    rng, cases = ctx.rng, []
+    alpha = [b'a', b'.', b':', b'#', b' ', b'\n', b'5']
+    h = b'a.a'
+    dns = '%s=%s,%s=%s' % (hexs(b'a'), v6(60, 1), hexs(b'a.a'), v4(61, 1))
+    maxlen = 4 if ctx.quick() else 6
+    texts = []
+    for n in range(0, maxlen + 1):
+        for combo in itertools.product(alpha, repeat=n):
+            texts.append(b''.join(combo))
+    if ctx.quick():
+        texts += [b''.join(rng.choice(alpha) for _ in range(5)) for _ in range(4000)]
+        texts += [b''.join(rng.choice(alpha) for _ in range(rng.randrange(6, 12))) for _ in range(2000)]
+    for body in texts:
+        p4, p6 = pton_tables([body])
+        cases.append('route h=%s d=~ r=%s ck=0 dns=%s acc=- p4=%s p6=%s' % (hexs(h), hexs(body), dns, p4, p6))
+        ctx.count('route:exhaustive-smtproutes')
+    lines = [b'relay=mail.example.net', b'port=26', b'outgoingip=10.9.8.7', b'outgoingip6=2001:db8::99', b'clientcert=/etc/cert.pem',
+             b'port=587', b'foo=bar', b'outgoingip6x=1']
+    seqs = []
+    for n in range(0, 5):
+        seqs += list(itertools.permutations(lines, n))
+    if ctx.quick():
+        seqs = [s for s in seqs if len(s) <= 3] + rng.sample([s for s in seqs if len(s) == 4], 600)
+    for s in seqs:
+        body = b''.join(l + b'\n' for l in s)
+        p4, p6 = pton_tables([body])
+        cases.append('route h=%s d=%s=%s r=~ ck=0 dns=%s acc=%s p4=%s p6=%s' % (
+            hexs(b'foo.example.net'), hexs(b'*.example.net'), hexs(body), dns_arg(HOSTS), hexs(CERTS[0]), p4, p6))
+        ctx.count('route:exhaustive-settings-lines')
+    return cases
+
+
 def pred_route(case, impl):
+    if impl.startswith('SKIP'):
+        return None
     return 'chk_route ' + case.split(' ', 1)[1] + ' | ' + impl
 
 
@@ -381,7 +423,7 @@ def mx_answer(rng):
 def gen_getmx(ctx):
     rng, cases = ctx.rng, []
     lits = [b'[1.2.3.4]', b'[::1]', b'[2001:db8::5]', b'[foo]', b'[1.2.3.4', b'[', b'[]', b'[::ffff:9.9.9.9]', b'[127.0.0.1]']
-    for _ in range(2500 if ctx.quick() else 25000):
+    for _ in range(5000 if ctx.quick() else 50000):
         mx, _ = mx_answer(rng)
         h = rng.choice(lits) if rng.random() < 0.15 else None
         cases.append(route_case(ctx, 'getmx', h, ' mx=' + mx)); ctx.count('getmx:' + ('literal' if h else 'name'))
@@ -391,7 +433,7 @@ def gen_getmx(ctx):
 def gen_choose(ctx):
     rng, cases = ctx.rng, []
     local4 = ['0a003301', '0a003401', '7f000001']      # relay4 / both (v4) / loopback
-    for _ in range(4000 if ctx.quick() else 40000):
+    for _ in range(10000 if ctx.quick() else 100000):
         mx, names = mx_answer(rng)
         h = rng.choice([b'[10.0.51.1]', b'[2001:db8::32:1]']) if rng.random() < 0.05 else None
         ifs = []
@@ -413,10 +455,14 @@ def gen_choose(ctx):
 
 
 def pred_connmx(case, impl):
+    if impl.startswith('SKIP'):
+        return None
     return 'chk_connmx ' + case.split(' ', 1)[1] + ' | ' + impl
 
 
 def pred_choose(case, impl):
+    if impl.startswith('SKIP'):
+        return None
     return 'chk_run ' + case.split(' ', 1)[1] + ' | ' + impl
 
 
